@@ -35,6 +35,8 @@ class CoopRLock:
             self.count += 1
             return True
         while self.owner is not None and self.owner != tid:
+            if not blocking:
+                return False            # a try-lock fails at once, like threading.RLock.acquire(blocking=False)
             sched.block(tid, self)
         self.owner = tid
         self.count += 1
